@@ -62,6 +62,7 @@ static void forge_pair(const cons *C, tuple *A, tuple *B, size_t mlen, size_t ad
                        const unsigned char *adA, const unsigned char *adB, size_t adl, const unsigned char *nA, const unsigned char *nB, const keyctx *kA, const keyctx *kB)
 {
     static unsigned char imgA[6 * OUTCAP], imgB[6 * OUTCAP]; const char *why = ""; char key[200]; int b1, b2;
+    if (pos == 9) VF_SAMPLE_CASE(5, "%s mlen=%zu adlen=%zu forgery '%s' at position %ld: every decrypt form must fail, report length 0, and leave identical output buffers for two different (key, plaintext) tuples; presented tag=%s", C->name, mlen, adlen, what, pos, vf_hex(tA, C->tlen));
     b1 = forged_call(C, A, cA, clen, tA, adA, adl, nA, kA, imgA, &why);
     b2 = forged_call(C, B, cB, clen, tB, adB, adl, nB, kB, imgB, &why);
     if (b1 || b2) { snprintf(key, sizeof key, "%s/%s@%ld/mlen=%zu/adlen=%zu", C->name, what, pos, mlen, adlen); vf_fail(key, "%s", why); return; }
